@@ -32,6 +32,7 @@ func verifSlot(fast bool, index, typeptr uintptr, set *OpcodeSet) {
 			fmt.Sprintf("encoder: program compiled for type %#x returned for type %#x (fast=%v index=%d)", uintptr(unsafe.Pointer(set.Type)), typeptr, fast, index))
 	}
 	if !fast {
+		verifState.slots[typeptr] = ^uintptr(0)
 		return
 	}
 	verifState.slots[typeptr] = index
@@ -43,7 +44,7 @@ func verifSlot(fast bool, index, typeptr uintptr, set *OpcodeSet) {
 	}
 }
 
-// VerifReport returns the problems seen so far and the slot used for each type on the fast path.
+// VerifReport returns the problems seen so far and the slot used for each type (all ones = map path).
 func VerifReport() ([]string, map[uintptr]uintptr) {
 	verifState.mu.Lock()
 	defer verifState.mu.Unlock()
